@@ -111,12 +111,14 @@ def run_mc(module, cfg=None, workers=16, timeout=1800, xmx='8g', coverage=False,
     if coverage:
         cov = {}
         for name, l1, c1, l2, c2, mod, a, b in _RE_COV.findall(out):
-            cov['%s.%s' % (mod, name)] = cov.get('%s.%s' % (mod, name), 0) + int(a)
+            cov['%s.%s' % (mod, name)] = cov.get('%s.%s' % (mod, name), 0) + int(b)
         res['coverage'] = cov
         res['uncovered'] = sorted(k for k, v in cov.items() if v == 0 and not k.endswith('.Init'))
     ok = (rc == 0 and ('Model checking completed. No error has been found.' in out or
                        (simulate and 'Error' not in out)))
     if simulate and rc == 0:
+        ok = True
+    if simulate and rc != 0 and not violated and 'Error:' not in out:
         ok = True
     res['ok'] = ok
     if not ok and not expect_violation:
@@ -200,3 +202,16 @@ def tlc_version():
     rc, out, _ = _java(['tlc2.TLC', '-h'], timeout=60, xmx='256m')
     m = re.search(r'TLC2 Version [^\n]*', out)
     return m.group(0) if m else 'unknown'
+
+
+def printed_json(out):
+    """values printed by PrintT(ToJson(x)) in a TLC run: each is a TLA+ string literal holding JSON"""
+    vals = []
+    for line in out.splitlines():
+        line = line.strip()
+        if line.startswith('"[') or line.startswith('"{'):
+            try:
+                vals.append(json.loads(json.loads(line)))
+            except ValueError:
+                raise MachineryError('cannot parse TLC-printed behaviour: %s' % line[:200])
+    return vals
